@@ -110,6 +110,8 @@ type Peer struct {
 
 	SMP  SMPState
 	Frag Reassembler
+	// ForgetFragmentsOnWholeMessage: drop a partly collected message when a non-fragment arrives (set by shadows of otr3)
+	ForgetFragmentsOnWholeMessage bool
 
 	Inbox      []Delivery
 	PeerErrors [][]byte // "?OTR Error:" messages received
@@ -173,6 +175,13 @@ func (p *Peer) StartAKE() ([]byte, error) {
 // first failed check, and the Peer's state is unchanged (random bytes may
 // have been consumed from Rand).
 func (p *Peer) Receive(msg []byte) (out [][]byte, err error) {
+	if p.ForgetFragmentsOnWholeMessage && !IsFragment(msg) && !p.fromOrForAnotherInstance(msg) {
+		// The specification does not say what happens to a partly collected message when
+		// something that is not a fragment arrives. libotr and otr3 drop it (otr3 pins that with a
+		// test); a Peer that shadows otr3 follows. A message from or for another instance is not
+		// part of the conversation and changes nothing.
+		p.Frag = Reassembler{}
+	}
 	switch {
 	case IsFragment(msg):
 		return p.receiveFragment(msg)
@@ -216,6 +225,21 @@ func (p *Peer) answerOffer(versions []int, what string) ([][]byte, error) {
 		}
 	}
 	return nil, ignore("offer-version", "%s does not offer version %d", what, p.Version)
+}
+
+// fromOrForAnotherInstance: an armoured version 3 message whose sender tag is not the peer's
+// (once known) or whose receiver tag is neither zero nor ours.
+func (p *Peer) fromOrForAnotherInstance(msg []byte) bool {
+	if p.Version < 3 || !IsArmored(msg) {
+		return false
+	}
+	raw, err := Dearmor(msg)
+	if err != nil || len(raw) < 11 || raw[0] != 0 || raw[1] != 3 {
+		return false
+	}
+	st := uint32(raw[3])<<24 | uint32(raw[4])<<16 | uint32(raw[5])<<8 | uint32(raw[6])
+	rt := uint32(raw[7])<<24 | uint32(raw[8])<<16 | uint32(raw[9])<<8 | uint32(raw[10])
+	return (p.TheirTag != 0 && st != p.TheirTag) || (rt != 0 && rt != p.OurTag)
 }
 
 // receiveFragment applies the v3 instance-tag filter and the reassembly
